@@ -1,14 +1,3 @@
-// Package c19 decides C19 (JSON.parse / JSON.stringify conform to ECMA-404 / ECMA-262 and round-trip) by
-// bounded-exhaustive enumeration against the reference model verif/ref/jsonmodel:
-//
-//	parse:     every token sequence of the JSON grammar up to N tokens over a token alphabet of well- and
-//	           ill-formed scalars and keys, every white-space placement of small texts, every single-code-unit
-//	           edit of every accepted small text, every string up to a length over a symbol alphabet, all
-//	           nestings up to depth 8; x revivers (absent, non-callable, logging, deleting, replacing, mutating)
-//	stringify: every value tree up to a depth over a leaf alphabet containing every kind of value the
-//	           property names x replacers x indents; Object.MarshalJSON; parse(stringify(v)); stringify(parse(t)).
-//
-// Every case is executed on the real engine and on the model and the complete observable outcome is compared.
 package c19
 
 import (
@@ -1049,33 +1038,6 @@ func scalarSpans(t jm.Str) [][2]int {
 	return res
 }
 
-func scalarTokensOld(t jm.Str) []jm.Str {
-	var res []jm.Str
-	for i := 0; i < len(t); {
-		c := t[i]
-		switch {
-		case c == '"':
-			end := jm.ScanString(t, i)
-			if end < 0 {
-				return res
-			}
-			res = append(res, t[i:end])
-			i = end
-		case c == '-' || c >= '0' && c <= '9':
-			end := jm.ScanNumber(t, i)
-			if end < 0 {
-				i++
-				continue
-			}
-			res = append(res, t[i:end])
-			i = end
-		default:
-			i++
-		}
-	}
-	return res
-}
-
 func permutations(n int) [][]int {
 	if n > 3 {
 		id := make([]int, n)
@@ -1132,22 +1094,38 @@ func run(r *core.Run) {
 	cache := newSigCache()
 	bounds := map[string]interface{}{}
 	complete := true
-	steps := []func(*core.Run, *sigCache, map[string]interface{}) bool{
-		runCorpus, runStringifyA1, runStringifyB, runParseGrammar, runStringifyA2, runWhitespace, runEdits, runNesting, runSymbols, runStringifyDeep,
+	type step = func(*core.Run, *sigCache, map[string]interface{}) bool
+	// every family at the quick bounds first (simplest first); the thorough tier then re-runs the families with
+	// their extended bounds, the open-ended ones last, so that a deadline cut never starves a whole family
+	levels := [][]step{{runCorpus, runStringifyA1, runStringifyB, runParseGrammar, runStringifyA2, runWhitespace, runEdits, runNesting, runSymbols, runStringifyDeep}}
+	if r.Thorough() {
+		levels = append(levels, []step{runWhitespace, runEdits, runNesting, runStringifyA2, runStringifyB, runSymbols, runStringifyDeep, runParseGrammar})
+	}
+	if only := os.Getenv("VERIF_C19_ONLY"); only != "" {
+		// development aid: run selected thorough extensions only, e.g. VERIF_C19_ONLY=A2,deep
+		names := map[string]step{"A1": runStringifyA1, "A2": runStringifyA2, "B": runStringifyB, "deep": runStringifyDeep, "grammar": runParseGrammar, "ws": runWhitespace, "edits": runEdits, "nesting": runNesting, "symbols": runSymbols}
+		var sel []step
+		for _, n := range strings.Split(only, ",") {
+			sel = append(sel, names[n])
+		}
+		levels = [][]step{{runCorpus}, sel}
 	}
 	var walls, cpus []float64
-	for _, s := range steps {
-		if r.Expired() {
-			complete = false
-			break
+	for lvl, steps := range levels {
+		tierLevel = lvl
+		for _, s := range steps {
+			if r.Expired() {
+				complete = false
+				break
+			}
+			t0 := time.Now()
+			c0 := cpuSeconds()
+			if !s(r, cache, bounds) {
+				complete = false
+			}
+			walls = append(walls, float64(int(time.Since(t0).Seconds()*10))/10)
+			cpus = append(cpus, float64(int((cpuSeconds()-c0)*10))/10)
 		}
-		t0 := time.Now()
-		c0 := cpuSeconds()
-		if !s(r, cache, bounds) {
-			complete = false
-		}
-		walls = append(walls, float64(int(time.Since(t0).Seconds()*10))/10)
-		cpus = append(cpus, float64(int((cpuSeconds()-c0)*10))/10)
 	}
 	r.Set("phase_wall_s", walls)
 	r.Set("phase_cpu_s", cpus)
@@ -1155,6 +1133,32 @@ func run(r *core.Run) {
 	r.Set("minimisations", int64(cache.minis))
 	r.Set("minimisation_evaluations", cache.fresh)
 	r.Exhaustive(complete)
+}
+
+// tierLevel: 0 while the families run at their quick bounds, 1 while the thorough tier runs the extended bounds.
+// Set by run() between phases only.
+var tierLevel int
+
+func pickL(q, t int) int {
+	if tierLevel == 1 {
+		return t
+	}
+	return q
+}
+
+func bkey(name string) string {
+	if tierLevel == 1 {
+		return name + " (thorough extension)"
+	}
+	return name
+}
+
+// countNT: non-trivial cases are counted once; the thorough extensions that re-run the same values / texts with
+// more combinations do not count them again.
+func countNT(r *core.Run, n int64, newSpace bool) {
+	if tierLevel == 0 || newSpace {
+		r.NontrivialN(n)
+	}
 }
 
 func sortedKeys(m map[string]bool) string {
